@@ -856,6 +856,144 @@ theorem unmodified_message_keeps_frames (fs : Nat) (pol : Policy) (s : St) (fc i
     exact hv ht pf hpf
   rw [fragmentize_unmodified fs t _ hne hv', flagged_of_wellFramed fr hwf]
 
+/-! ### the `crashed` hypothesis is derivable: wsproto never yields anything behind a close -/
+
+private def Safe (s : St) : Prop := Live s ∨ (s.done = true ∧ s.crashed = false)
+
+private theorem procEvs_safe (fs : Nat) (pol : Policy) (fc inj : Bool) (es : List WsEv) :
+    ∀ s : St, Live s → closeLast es = true → Safe (procEvs fs pol fc inj s es).1 := by
+  induction es with
+  | nil => intro s h _; exact Or.inl h
+  | cons e rest ih =>
+    intro s h hcl
+    cases rest with
+    | nil =>
+      simp only [procEvs]
+      cases hc : e.isClose with
+      | false => exact Or.inl (procEv_live fs pol fc inj s e h hc).1
+      | true =>
+        cases e with
+        | close k c r =>
+          obtain ⟨_, h2, _, h4, _⟩ := procClose_inv fc s k c r
+          refine Or.inr ⟨?_, ?_⟩
+          · simpa [procEv, h.2.2.2] using h4
+          · simpa [procEv, h.2.2.2, h.2.2.2] using h2.trans h.2.2.2
+        | msg _ _ _ _ => simp [WsEv.isClose] at hc
+        | ping _ => simp [WsEv.isClose] at hc
+        | pong _ => simp [WsEv.isClose] at hc
+    | cons e' rest' =>
+      simp only [closeLast, Bool.and_eq_true, Bool.not_eq_true'] at hcl
+      obtain ⟨l1, _⟩ := procEv_live fs pol fc inj s e h hcl.1
+      simp only [procEvs]
+      exact ih _ l1 hcl.2
+
+private theorem step_safe (fs : Nat) (pol : Policy) (s : St) (e : Ev) (h : Safe s) (hcl : e.closeLast = true) :
+    Safe (step fs pol s e).1 := by
+  rcases h with h | h
+  · cases e with
+    | data fc evs =>
+      simp only [step, h.2.2.1, h.2.2.2, Bool.or_self, Bool.false_eq_true, if_false]
+      exact procEvs_safe fs pol fc false evs s h hcl
+    | inject fc t c => exact Or.inl (step_live fs pol s (.inject fc t c) h rfl).1
+  · rw [step_done fs pol s e h.1]; exact Or.inr h
+
+private theorem run_safe (fs : Nat) (pol : Policy) (es : List Ev) :
+    ∀ s : St, Safe s → (∀ e ∈ es, e.closeLast = true) → Safe (run fs pol s es).1 := by
+  induction es with
+  | nil => intro s h _; exact h
+  | cons e es ih =>
+    intro s h hcl
+    simp only [run]
+    exact ih _ (step_safe fs pol s e h (hcl e (by simp))) (fun x hx => hcl x (List.mem_cons_of_mem _ hx))
+
+/-- **C28 (no crash).** When close events only occur as the last event of a batch — which is what
+    wsproto delivers (`stream_events_close_last`) — the relay never hands an event to a wsproto
+    connection that cannot send it: the `crashed` hypothesis of the run-level theorems is a theorem. -/
+theorem no_crash_when_close_is_last (fs : Nat) (pol : Policy) (evs : List Ev)
+    (h : ∀ e ∈ evs, e.closeLast = true) : (run fs pol {} evs).1.crashed = false := by
+  rcases run_safe fs pol evs {} (Or.inl ⟨rfl, rfl, rfl, rfl⟩) h with h | h
+  · exact h.2.2.2
+  · exact h.2
+
+/-- **C28 (exactly once, in order — unconditional form).** For every history of wsproto event
+    batches of both directions and injections, every addon policy and either peer: what that
+    peer reassembles is exactly the recorded, non-dropped messages of the other direction. -/
+theorem each_message_once_in_order_wsproto (fs : Nat) (pol : Policy) (evs : List Ev) (toClient : Bool)
+    (h : ∀ e ∈ evs, e.closeLast = true) :
+    delivered toClient (run fs pol {} evs).2 = expected toClient (run fs pol {} evs).1.msgs :=
+  each_message_once_in_order fs pol evs toClient (no_crash_when_close_is_last fs pol evs h)
+
+private theorem frameEvent_close (ms : Wire.MState) (f : Wire.Frame) (ms' : Wire.MState) (e : WsEv)
+    (h : Wire.frameEvent ms f = some (ms', e)) (h8 : f.opcode ≠ 8) : e.isClose = false := by
+  unfold Wire.frameEvent at h
+  repeat' split at h
+  all_goals first
+    | contradiction
+    | (simp at h; done)
+    | (simp at h; obtain ⟨_, rfl⟩ := h; rfl)
+
+/-- the transcribed wsproto receive path yields a close event only as the last event of a batch -/
+theorem stream_events_close_last (client : Bool) (rsvOk : Nat → Nat → Bool) :
+    ∀ (fuel : Nat) (ms : Wire.MState) (bs : Bytes) (evs : List WsEv),
+    Wire.streamEvents client rsvOk fuel ms bs = some evs → closeLast evs = true := by
+  intro fuel
+  induction fuel with
+  | zero => intro ms bs evs h; simp [Wire.streamEvents] at h; subst h; rfl
+  | succ n ih =>
+    intro ms bs evs h
+    simp only [Wire.streamEvents] at h
+    split at h
+    · simp at h; subst h; rfl
+    · simp at h
+    · rename_i f rest _
+      split at h
+      · simp at h
+      · rename_i ms1 e hfe
+        split at h
+        · simp at h; subst h; rfl
+        · rename_i h8
+          cases hr : Wire.streamEvents client rsvOk n ms1 rest with
+          | none => rw [hr] at h; simp at h
+          | some r =>
+            rw [hr] at h; simp at h; subst h
+            have hcl := ih ms1 rest r hr
+            have he := frameEvent_close ms f ms1 e hfe h8
+            cases r with
+            | nil => rfl
+            | cons a l => simp [closeLast, he, hcl]
+
+/-! ### received text frames may end inside a character (wsproto's incremental decoder, transcribed) -/
+
+/-- **C28 (text frames cut anywhere).** Whatever byte positions the sender cuts a text message
+    at — also inside multi-byte characters — if wsproto's strict incremental decoder accepts the
+    frames, the data of the events it hands to the relay concatenate to exactly the concatenated
+    frame payloads, nothing is held back, and that content is UTF-8 (`san c = c`). -/
+theorem text_frames_cut_anywhere (cs outs : List Bytes) (p' : Bytes) (hne : cs ≠ [])
+    (h : decodeChunks [] cs = some (outs, p')) :
+    outs.flatten = cs.flatten ∧ p' = [] ∧ san cs.flatten = cs.flatten := by
+  obtain ⟨hg, hp⟩ := decodeChunks_goS cs [] outs p' h
+  have hp' := hp hne
+  subst hp'
+  obtain ⟨h1, h2⟩ := strict_valid cs.flatten outs.flatten hg
+  exact ⟨h1, rfl, h2⟩
+
+/-- … and the relay records exactly that content for the message (as edited by the addons),
+    for every way the frames were cut. -/
+theorem text_message_cut_anywhere_recorded (fs : Nat) (pol : Policy) (s : St) (fc : Bool)
+    (cs : List Bytes) (fr : List (Bytes × Bool)) (p' : Bytes) (hne : cs ≠ [])
+    (hdec : decodeChunks [] cs = some (fr.map (·.1), p')) (hwf : wellFramed fr = true)
+    (hc : s.crashed = false) (hb : s.buf fc = [[]]) :
+    (procEvs fs pol fc false s (fr.map (fun pf => WsEv.msg true pf.1 true pf.2))).1.msgs =
+      s.msgs ++ [applyAction (Msg.mk true fc cs.flatten false false)
+                  (pol s.msgs.length (Msg.mk true fc cs.flatten false false))] := by
+  obtain ⟨h1, _, _⟩ := text_frames_cut_anywhere cs (fr.map (·.1)) p' hne hdec
+  rw [chunks_run fs pol fc false true fr hwf s [] hc (by simpa using hb)]
+  unfold finishMsg
+  simp only [List.nil_append, h1]
+  split
+  · simp
+  · split <;> simp
+
 /-! ### non-vacuity: concrete runs computed by the kernel -/
 
 -- "a" ++ "é"×3 as text with FRAGMENT_SIZE 4: the cut at byte 4 would split the second "é";
@@ -899,5 +1037,14 @@ example : (Wire.streamEvents true Wire.noExt 10 none [0x01, 1, 0x61, 0x89, 0, 0x
 example : controlsOut false (run 4000 (fun _ _ => .keep) {}
       [.data true [.ping [1], .msg true [0x61] true true], .data false [.pong [2]], .data true [.pong [3]]]).2
     = [(true, [1]), (false, [3])] := by decide +kernel
+
+-- "aé€" cut inside both multi-byte characters: the decoder hands over "a", "é", "€"
+example : decodeChunks [] [[0x61, 0xC3], [0xA9, 0xE2], [0x82, 0xAC]] =
+    some ([[0x61], [0xC3, 0xA9], [0xE2, 0x82, 0xAC]], []) := by decide +kernel
+-- and it rejects an overlong sequence and a message ending inside a character
+example : decodeChunks [] [[0x61], [0xC0, 0x80]] = none ∧ decodeChunks [] [[0x61, 0xC3]] = none := by decide +kernel
+-- a close frame followed by a ping in one segment: nothing behind the close is an event
+example : Wire.streamEvents true Wire.noExt 10 none [0x88, 0x02, 0x03, 0xE8, 0x89, 0x00]
+    = some [.close .frame 1000 (some [])] := by decide +kernel
 
 end MitmVerif.Props.C28
